@@ -345,7 +345,12 @@ def run(rep, idx, tier):
         else:
             S = fa.norm(rd[0].value)
             single_unconditional(rep, "C16.3", fa, "Output field: port.r_data == storage", fa.parse("self.port.r_data"), "comb", S)
-            single_unconditional(rep, "C16.3", fa, "Output field: data == storage", fa.parse("self.data"), "comb", S)
+            if S == fa.norm(fa.parse("self.data")):
+                # the output port is itself the register (an output member has init 0 and is reset with its domain, like the
+                # private register it replaces): nothing to copy
+                rep.ok("C16.3", fa.fi.site, "Output field: data == storage", "the `data` output is the storage register itself")
+            else:
+                single_unconditional(rep, "C16.3", fa, "Output field: data == storage", fa.parse("self.data"), "comb", S)
             sd = fa.drivers_of(S)
             if {d.domain for d in sd} != {"sync"}:
                 rep.bad("C16.3", fa.fi.site, "Output field storage", "storage must be a sync register")
